@@ -68,6 +68,10 @@ def integrate_event(c, lazy=False):
         m = measurement(c["nr"], c["na"], c["rs"], c["ro"], c["ao"], lazy)
         rl = None if c["rl"] == [] else (F(c["rl"][0]), F(c["rl"][1]))
         al = None if c["al"] == [] else (F(c["al"][0]) * math.pi, F(c["al"][1]) * math.pi)
+        # argument forms: the same limits as NumPy scalars, lists, 0-d arrays or arrays
+        from ..forms import reform
+        fk = c["nr"] + 2 * c["na"] + (0 if c["rl"] == [] else c["rl"][0][0]) + (0 if c["al"] == [] else c["al"][1][0])
+        rl, al = reform(rl, fk), reform(al, fk + 1)
         if (c["nr"] * 3 + c["na"]) % 4 == 0:
             # the same measurement object has been integrated before, over everything and over these limits (results discarded)
             m.integrate()
